@@ -163,6 +163,15 @@ func (g *Gen) identityRefs(r *R, nsub int) []*Ref {
 	refs = append(refs, &Ref{Kind: "path", Path: []Sx{Sym("c"), L(Sym("m"), N(1))}})
 	var subs []*R
 	subRecipes(r, &subs, 40)
+	// every user-typed leaf of the recipe, rebuilt: value types, non-comparable
+	// value types and types with an Is method must meet a reference of their own type
+	nu := 0
+	for _, s := range subs {
+		if s.Op == "uleaf" && nu < 3 {
+			refs = append(refs, &Ref{Kind: "recipe", R: cloneR(s)})
+			nu++
+		}
+	}
 	for i := 0; i < nsub && len(subs) > 0; i++ {
 		s := subs[g.r.intn(len(subs))]
 		refs = append(refs, &Ref{Kind: "recipe", R: cloneR(s)})
@@ -424,6 +433,22 @@ func propCases(prop string, g *Gen, n int) []*Case {
 		g.NoPlusV = true
 		for len(cases) < n {
 			r := g.treeWithHidden(1 + g.r.intn(4))
+			switch len(cases) % 6 {
+			case 1:
+				// the hidden error already carries the domain the barrier is created in
+				d := "error domain: \"" + g.word() + "\""
+				h := &R{Op: "domain", Kids: []*R{g.Tree(1 + g.r.intn(2))}, S: []string{d}}
+				r = g.Wrapper(&R{Op: "handledindomain", Kids: []*R{h}, S: []string{d}}, 1)
+			case 3:
+				// the secondary error contains an error equal to the primary one
+				x := g.Tree(1 + g.r.intn(2))
+				sec := g.Wrapper(g.Wrapper(cloneR(x), 1), 1)
+				op := "combine"
+				if g.r.chance(50) {
+					op = "secondary"
+				}
+				r = g.Wrapper(&R{Op: op, Kids: []*R{x, sec}}, 1)
+			}
 			v, ok := g.swapHidden(r)
 			if !ok {
 				continue
@@ -472,6 +497,24 @@ func propCases(prop string, g *Gen, n int) []*Case {
 				r = &R{Op: "nil"}
 			}
 			refs := g.identityRefs(r, 4)
+			if i%5 == 1 {
+				// Mark(e, ref) with a reference whose chain is deeper / shallower than e's
+				e := g.Tree(g.r.intn(3))
+				ref := g.Tree(g.r.intn(4))
+				if _, isNil := specText(ref); isNil {
+					ref = g.Leaf(0)
+				}
+				if _, isNil := specText(e); isNil {
+					e = g.Leaf(0)
+				}
+				r = &R{Op: "mark", Kids: []*R{e, ref}}
+				if g.r.chance(50) {
+					r = g.Wrapper(r, 1)
+				}
+				refs = g.identityRefs(r, 2)
+				refs = append(refs, &Ref{Kind: "recipe", R: cloneR(ref)}, &Ref{Kind: "recipe", R: g.perturb(ref)},
+					&Ref{Kind: "recipe", R: cloneR(e)})
+			}
 			obs := isObs(len(refs))
 			for k := 0; k+2 < len(refs); k += 3 {
 				obs = append(obs, Obs{Name: "isany", Refs: []int{k, k + 1, k + 2}})
@@ -498,6 +541,10 @@ func propCases(prop string, g *Gen, n int) []*Case {
 		}
 		for i := 0; i < n; i++ {
 			r := g.Tree(1 + g.r.intn(6))
+			if i%10 == 3 {
+				x := g.Tree(1 + g.r.intn(2))
+				r = &R{Op: []string{"combine", "secondary"}[g.r.intn(2)], Kids: []*R{x, g.Wrapper(cloneR(x), 1)}}
+			}
 			var refs []*Ref
 			o := append([]Obs{}, obs...)
 			if annotOps[r.Op] {
